@@ -1511,23 +1511,29 @@ void ExpandLine(char const* TokNam, unsigned TokenNum, as_dynstr_t* p_str) {
     (void)ReplaceLineUnchecked(p_str, Token, TokNam, True);
 }
 
-void KillCtrl(char* Line) {
-    char* z;
+void KillCtrl(as_dynstr_t* p_line) {
+    char*  Line = p_line->p_str;
+    size_t pos;
 
-    if (*(z = Line) == '\0') {
-        return;
-    }
-    do {
-        if (*z == '\0')
-            ;
-        else if (*z == Char_HT) {
-            strmov(z, z + 1);
-            strprep(z, Blanks(8 - ((z - Line) % 8)));
-        } else if ((*z & 0xe0) == 0) {
-            *z = ' ';
+    for (pos = 0; Line[pos] != '\0'; pos++) {
+        if (Line[pos] == Char_HT) {
+            size_t fill = 8 - (pos % 8);
+
+            /* the expanded TABs may not fit into the copy of the source line */
+
+            if (strlen(Line) + fill > p_line->capacity) {
+                if (as_dynstr_realloc(
+                            p_line, as_dynstr_roundup_len(strlen(Line) + fill))) {
+                    return;
+                }
+                Line = p_line->p_str;
+            }
+            strmov(Line + pos, Line + pos + 1);
+            strprep(Line + pos, Blanks(fill));
+        } else if ((Line[pos] & 0xe0) == 0) {
+            Line[pos] = ' ';
         }
-        z++;
-    } while (*z != '\0');
+    }
 }
 
 /****************************************************************************/
